@@ -248,7 +248,14 @@ func runC10(r *fw.Run) {
 			big := &CallScript{ID: fmt.Sprintf("stallbig%d", k), Pad: json.RawMessage(jg.BigString(4 << 20)), Steps: []Step{{Op: "reply", Cont: true}, {Op: "reply"}}}
 			data, _, _ := streamOf([]GenCall{{Method: "org.example.script.Big", Flags: "m", Script: big}}, 0)
 			cc := &c01Case{Transport: cf.tr, UseListen: cf.listen, Ifaces: c01Ifaces}
-			cc.Conns = append(cc.Conns, &ConnScript{Stream: data, Cut: -1, Stall: true, What: "stalled reader during a 4 MiB reply"})
+			what := "stalled reader during a 4 MiB reply"
+			if k%2 == 1 {
+				data, what = builtinFlood(big.ID), "client pipelines 1 200 introspection calls and reads none of the answers"
+			}
+			cc.Conns = append(cc.Conns, &ConnScript{Stream: data, Cut: -1, Stall: true, What: what})
+			if k%2 == 1 {
+				cc.Conns = append(cc.Conns, &ConnScript{Calls: []GenCall{{Method: "org.varlink.service.GetInfo"}, {Method: "org.varlink.service.GetInterfaceDescription", Params: `{"interface":"org.example.script"}`}}, WaitFor: big.ID})
+			}
 			for j := 0; j < 3; j++ {
 				good++
 				cs := genConnScript(rng, jg, fmt.Sprintf("g%d", good), 4, false)
